@@ -362,6 +362,19 @@ class CallMixin:
                 return v
             finally:
                 self.in_old = was
+        if name == 'entry':
+            # spec (Loop.at_exit): value of the expression when the loop being left was entered
+            es = getattr(self, 'entry_stack', [])
+            if not es:
+                raise ContractError('entry() outside Loop.at_exit')
+            h = es[-1]
+            tmp = h.copy()
+            tmp.locals = {**{k: v for k, v in st.locals.items() if v is not None}, **{k: v for k, v in h.locals.items() if v is not None}}
+            tmp.old = st.old
+            tmp.axd = st.axd
+            tmp.pc = st.pc
+            tmp.pcd = st.pcd
+            return self.ev(n.args[0], tmp)
         if name == 'head':
             # spec: value of the expression at the head of the current iteration of the innermost loop
             hs = getattr(self, 'head_stack', [])
